@@ -651,3 +651,235 @@ def inline_void_helpers(stmt, helpers, depth=0):
                 out[key] = rec(s[key])
         return out
     return rec(stmt)
+
+
+_FRESH = [0]
+
+
+def _fresh_id():
+    _FRESH[0] -= 1
+    return _FRESH[0]
+
+
+def inline_helpers(stmt, helpers, depth=0):
+    """Copy of the statement tree in which statements of the forms  `helper(args);`,  `x = helper(args);`  and
+    `T x = helper(args);`  are replaced by the body of the helper (a function with a body from `helpers`, keyed by qualified
+    name) - provided the helper returns only through one trailing `return`.  Parameters are replaced by the argument
+    expressions when these are plain lvalues / literals and by fresh const locals otherwise; the helper's own locals get fresh
+    ids per inlined copy.  Everything else is left as it is."""
+    import copy
+
+    def simple(a):
+        a = strip_casts(a)
+        if a is None:
+            return False
+        if a.get("k") in ("Ref", "Int", "Float", "Bool", "This", "Null"):
+            return True
+        if a.get("k") == "Un" and a.get("op") in ("*", "&"):
+            return simple(a["x"])
+        if a.get("k") == "Mem":
+            return simple(a["b"])
+        if a.get("k") == "Call" and a.get("op") in ("*", "->", "[]") and a.get("obj") is not None:
+            return simple(a["obj"]) and all(simple(x) for x in a.get("a", []))
+        if a.get("k") == "Idx":
+            return simple(a["a"]) and simple(a["i"])
+        if a.get("k") == "Ctor" and len(a.get("a", [])) == 1:
+            return simple(a["a"][0])
+        return False
+
+    def subst(e, m, idmap):
+        if isinstance(e, dict):
+            if e.get("k") == "Ref" and e.get("id") in m:
+                return copy.deepcopy(m[e["id"]])
+            out = {k: subst(v, m, idmap) for k, v in e.items()}
+            if out.get("id") in idmap and out.get("k") in ("Ref",):
+                out["id"] = idmap[out["id"]]
+            if "d" in out and out.get("k") == "Decl":
+                for d in out["d"]:
+                    if d.get("id") in idmap:
+                        d["id"] = idmap[d["id"]]
+            return out
+        if isinstance(e, list):
+            return [subst(v, m, idmap) for v in e]
+        return e
+
+    def the_call(e):
+        e0 = strip_casts(e) if e is not None else None
+        while e0 is not None and e0.get("k") == "Ctor" and len(e0.get("a", [])) == 1:
+            e0 = strip_casts(e0["a"][0])
+        if e0 is not None and e0.get("k") == "Call" and not e0.get("op") and e0.get("fn") in helpers and \
+                (e0.get("obj") is None or (strip_casts(e0["obj"]) or {}).get("k") == "This"):
+            callee = helpers[e0["fn"]]
+            if len(callee["params"]) == len(e0["a"]) and callee.get("body") is not None and callee["body"].get("k") == "Block":
+                return e0, callee
+        return None, None
+
+    def expand(call, callee):
+        """(statements, return expression or None) or None when the helper has an early return"""
+        body = callee["body"]["s"]
+        rets = [x for x in walk_stmt(callee["body"]) if x.get("k") == "Return"]
+        tail = body[-1] if body and body[-1].get("k") == "Return" else None
+        if len(rets) > (1 if tail is not None else 0):
+            return None
+        pre = []
+        m = {}
+        for p, a in zip(callee["params"], call["a"]):
+            if "id" not in p:
+                continue
+            if simple(a):
+                m[p["id"]] = a
+            else:
+                nid = _fresh_id()
+                pre.append({"k": "Decl", "l": call.get("l"), "d": [{"id": nid, "n": p["n"], "t": "const " + (p.get("t") or "").replace("const ", ""),
+                                                                   "init": a, "l": call.get("l")}]})
+                m[p["id"]] = {"k": "Ref", "n": p["n"], "id": nid, "t": p.get("t"), "dk": "Var", "l": call.get("l")}
+        idmap = {}
+        for st in walk_stmt(callee["body"]):
+            if st.get("k") == "Decl":
+                for d in st["d"]:
+                    idmap[d["id"]] = _fresh_id()
+            if st.get("k") == "For" and st.get("init") is not None and st["init"].get("k") == "Decl":
+                for d in st["init"]["d"]:
+                    idmap[d["id"]] = _fresh_id()
+        stmts = [subst(x, m, idmap) for x in (body[:-1] if tail is not None else body)]
+        stmts = [inline_helpers(x, helpers, depth + 1) for x in stmts]
+        ret = subst(tail["x"], m, idmap) if tail is not None and tail.get("x") is not None else None
+        return pre + stmts, ret
+
+    def rec(s):
+        if not isinstance(s, dict):
+            return s
+        k = s.get("k")
+        if depth < 3:
+            if k == "Decl" and len(s["d"]) == 1 and s["d"][0].get("init") is not None:
+                call, callee = the_call(s["d"][0]["init"])
+                if call is not None:
+                    ex = expand(call, callee)
+                    if ex is not None and ex[1] is not None:
+                        d2 = dict(s["d"][0])
+                        d2["init"] = ex[1]
+                        return {"k": "Block", "l": s.get("l"), "inlined": callee["full"], "s": ex[0] + [dict(s, d=[d2])]}
+            if k == "Bin" and s.get("op") == "=":
+                call, callee = the_call(s["b"])
+                if call is not None:
+                    ex = expand(call, callee)
+                    if ex is not None and ex[1] is not None:
+                        return {"k": "Block", "l": s.get("l"), "inlined": callee["full"], "s": ex[0] + [dict(s, b=ex[1])]}
+            if k == "Call":
+                call, callee = the_call(s)
+                if call is not None:
+                    ex = expand(call, callee)
+                    if ex is not None:
+                        return {"k": "Block", "l": s.get("l"), "inlined": callee["full"], "s": ex[0]}
+        if k == "Block":
+            out = dict(s)
+            out["s"] = [rec(x) for x in s.get("s", [])]
+            return out
+        out = dict(s)
+        for key in ("th", "el", "body", "sub"):
+            if isinstance(s.get(key), dict):
+                out[key] = rec(s[key])
+        return out
+    return rec(stmt)
+
+
+def with_inlined_helpers(fn, candidates):
+    """fn with the helper methods of its own class (loop-free or not) inlined into its body; `candidates` are the function
+    declarations to choose the helpers from."""
+    helpers = {}
+    for h in candidates:
+        if h["kind"] == "function" and h.get("body") is not None and h.get("cls") == fn.get("cls") and h is not fn and \
+                not h.get("ctor") and not h.get("dtor") and h["full"].split("(")[0] != fn["full"].split("(")[0]:
+            helpers.setdefault(h["full"].split("(")[0], h)
+    if not helpers:
+        return fn
+    body = inline_helpers(fn["body"], helpers)
+    out = dict(fn)
+    out["body"] = body
+    return out
+
+
+def value_expr_of(callee):
+    """The value a loop-free helper returns, as one expression over its parameters: `if (c) return a; ... return b;` becomes
+    c ? a : (... b); const locals are replaced by their initialisers.  None if the body has another shape."""
+    import copy
+    if callee.get("body") is None or callee["body"].get("k") != "Block":
+        return None
+    consts = {}
+
+    def unblock(s):
+        while s is not None and s.get("k") == "Block" and not s.get("mac") and len(s.get("s", [])) == 1:
+            s = s["s"][0]
+        return s
+
+    def build(stmts):
+        if not stmts:
+            return None
+        st = stmts[0]
+        k = st.get("k")
+        if k == "Null" or (k == "Block" and st.get("mac") and st.get("mac") not in ABORT_MACROS):
+            return build(stmts[1:])
+        if k == "Decl":
+            for d in st["d"]:
+                if d.get("init") is None:
+                    return None
+                consts[d["id"]] = d["init"]
+            return build(stmts[1:])
+        if k == "Return":
+            return st.get("x")
+        if k == "Block" and not st.get("mac"):
+            return build(list(st["s"]) + stmts[1:])
+        if k == "If":
+            th = unblock(st["th"])
+            a = build([th]) if th is not None else None
+            if a is None:
+                return None
+            rest = ([st["el"]] if st.get("el") is not None else []) + stmts[1:]
+            b = build(rest)
+            if b is None:
+                return None
+            return {"k": "Cond", "c": st["c"], "a": a, "b": b, "t": callee.get("ret") or "double", "l": st.get("l")}
+        return None
+    e = build(list(callee["body"]["s"]))
+    if e is None:
+        return None
+
+    def subst(x, depth=0):
+        if isinstance(x, dict):
+            if x.get("k") == "Ref" and x.get("id") in consts and depth < 8:
+                return subst(copy.deepcopy(consts[x["id"]]), depth + 1)
+            return {k: subst(v, depth) for k, v in x.items()}
+        if isinstance(x, list):
+            return [subst(v, depth) for v in x]
+        return x
+    return subst(e)
+
+
+def inline_value_calls(tree, helpers, depth=0):
+    """Copy of an AST (statement or expression) in which calls to loop-free value helpers (qualified name -> declaration)
+    are replaced by the helper's value expression with the parameters substituted by the arguments."""
+    import copy
+
+    def rec(x):
+        if isinstance(x, dict):
+            if x.get("k") == "Call" and not x.get("op") and x.get("fn") in helpers and depth < 3:
+                callee = helpers[x["fn"]]
+                if len(callee["params"]) == len(x.get("a", [])):
+                    ve = value_expr_of(callee)
+                    if ve is not None:
+                        m = {p["id"]: rec(a) for p, a in zip(callee["params"], x["a"]) if "id" in p}
+
+                        def sub(y):
+                            if isinstance(y, dict):
+                                if y.get("k") == "Ref" and y.get("id") in m:
+                                    return copy.deepcopy(m[y["id"]])
+                                return {k: sub(v) for k, v in y.items()}
+                            if isinstance(y, list):
+                                return [sub(v) for v in y]
+                            return y
+                        return inline_value_calls(sub(ve), helpers, depth + 1)
+            return {k: rec(v) for k, v in x.items()}
+        if isinstance(x, list):
+            return [rec(v) for v in x]
+        return x
+    return rec(tree)
